@@ -1,29 +1,60 @@
 package main
 
 import (
+	stdjson "encoding/json"
 	"fmt"
+	"os"
 
-	"github.com/segmentio/encoding/proto"
-	"verifharness/gen/ptypes"
+	"github.com/segmentio/encoding/json"
 )
 
-type T struct {
-	F1 bool
-	F2 ptypes.MsgT
-}
-type P struct {
-	F1 bool
-	F2 *ptypes.MsgT
-}
-type L struct {
-	F1 []ptypes.MsgT
+type K struct{ A int }
+
+func (k *K) MarshalText() ([]byte, error) { return []byte(fmt.Sprintf("k%d", k.A)), nil }
+
+type VT int
+
+func (v VT) MarshalText() ([]byte, error)  { return []byte("text"), nil }
+func (v *VT) MarshalJSON() ([]byte, error) { return []byte(`"json"`), nil }
+
+type D1 struct{ X int }
+type D2 struct{ X int }
+type Mid struct{ D2 }
+type Amb struct {
+	D1
+	Mid
 }
 
 func main() {
-	b, err := proto.Marshal(T{F2: ptypes.MsgT{B: []byte{0x30}}})
-	fmt.Printf("by value:   % x err=%v size=%d\n", b, err, proto.Size(T{F2: ptypes.MsgT{B: []byte{0x30}}}))
-	b, err = proto.Marshal(P{F2: &ptypes.MsgT{B: []byte{0x30}}})
-	fmt.Printf("by pointer: % x err=%v\n", b, err)
-	b, err = proto.Marshal(L{F1: []ptypes.MsgT{{B: []byte{0x30}}}})
-	fmt.Printf("repeated:   % x err=%v\n", b, err)
+	switch os.Args[1] {
+	case "iface":
+		type S struct {
+			I any `json:"i,omitempty"`
+		}
+		var p *int
+		a, _ := json.Marshal(S{I: p})
+		b, _ := stdjson.Marshal(S{I: p})
+		fmt.Printf("omitempty iface nil ptr: pkg=%s std=%s\n", a, b)
+		v := VT(1)
+		a, _ = json.Marshal(&v)
+		b, _ = stdjson.Marshal(&v)
+		fmt.Printf("VT ptr: pkg=%s std=%s\n", a, b)
+		a, _ = json.Marshal(struct{ V VT }{1})
+		b, _ = stdjson.Marshal(struct{ V VT }{1})
+		fmt.Printf("VT field by value: pkg=%s std=%s\n", a, b)
+		a, _ = json.Marshal(&struct{ V VT }{1})
+		b, _ = stdjson.Marshal(&struct{ V VT }{1})
+		fmt.Printf("VT field addressable: pkg=%s std=%s\n", a, b)
+		a, _ = json.Marshal(Amb{D1{1}, Mid{D2{2}}})
+		b, _ = stdjson.Marshal(Amb{D1{1}, Mid{D2{2}}})
+		fmt.Printf("depth: pkg=%s std=%s\n", a, b)
+	case "ptrkey":
+		b, err := stdjson.Marshal(map[*K]int{{1}: 1})
+		fmt.Printf("std: %s %v\n", b, err)
+		a, err := json.Marshal(map[*K]int{{1}: 1})
+		fmt.Printf("pkg: %s %v\n", a, err)
+	case "recarray":
+		type T [1]*T
+		_ = T{}
+	}
 }
